@@ -588,3 +588,75 @@ TECHNIQUE = "symbolic execution of rustc MIR (dataflow) -> SMT, plus Kani/CBMC h
 
 # ---- extended claim (session 3)
 LEVEL_TEXT = LEVEL_TEXT + " (f) JSON<->packed conversions of Script, CellOutput, OutPoint, CellInput, CellDep, Transaction, Header, UncleBlock, Block: every JSON field is computed from the same-named packed getter only and every builder setter receives the same-named JSON field only, each schema field set once; hash-type / dep-type enum conversions keep the discriminant. (g) cached hashes of views equal recomputation on the stored entity; reset_header_with_hashes / BlockView roots bind tx hashes then witness hashes, proposals, uncles (in order) and the extension (present even if empty). (h) the store's from_slice_should_be_ok helper is strict decoding."
+
+
+def m9_serialized_size_helpers(S):
+    """util/gen-types/src/extension/serialized_size.rs -- the size constants and formulas the block-size rule (C03) and the template size accounting (C13) are built on, against
+    the molecule layout derived from the schema: a transaction in a block costs its own bytes plus one offset; `UncleBlock::serialized_size_in_block()` is the layout contribution
+    of an uncle with empty proposals (its minimal table encoding plus one offset in the uncle vector); `ProposalShortId::serialized_size()` is the schema's array size; the
+    block size without uncle proposals is the block size minus, per uncle, the proposals' bytes beyond the 4-byte length header (two uncles, any sizes)"""
+    from obligations import molecule_m as MM
+    from mir2smt.exec import ListV
+    ob = "C15.m9"
+    imp = "util/gen-types/src/extension/serialized_size.rs"
+    one = lambda short, pred=lambda x: True: _one_fn(S, lambda x: x.short == short and imp in x.name and pred(x), short)
+    # --- constants
+    ctx = S.ctx()
+    ps = S.run(ctx, one("serialized_size_in_block", lambda x: len(x.params) == 0), [])
+    want_uncle = len(MM.minimal_encoding("UncleBlock")) + 4
+    S.prove(ctx, ob, "uncle_size_in_block_is_the_minimal_uncle_table_plus_one_offset", [], bool(len(ps) == 1 and ps[0].outcome == "return") and T.eq(as_int(ps[0].value), want_uncle), extra={"note": f"want {want_uncle}"})
+    ctx = S.ctx()
+    ps = S.run(ctx, one("serialized_size", lambda x: len(x.params) == 0), [])
+    S.prove(ctx, ob, "proposal_short_id_size_is_the_schemas_array_size", [], bool(len(ps) == 1 and ps[0].outcome == "return") and T.eq(as_int(ps[0].value), MM.fixed_size("ProposalShortId")))
+    # --- a transaction in a block
+    ctx = S.ctx()
+    ctx.uninterpreted_unknown_calls = True
+    n = ctx.int("tx_bytes", "usize")
+    from mir2smt.exec import SliceV
+    ctx.env = [(E.rx(r"::as_slice$"), lambda ex, c, a, d: SliceV("txbuf", 0, n.t))]
+    f = one("serialized_size_in_block", lambda x: len(x.params) == 1 and "TransactionReader" in x.params[0][1])
+    ps = S.run(ctx, f, [ctx.ref_to(OpaqueV("tx_reader", "TransactionReader"))])
+    pre = [T.le(n.t, 1 << 40)]
+    S.prove(ctx, ob, "transaction_in_block_costs_its_bytes_plus_one_offset", pre, T.and_(T.not_(cond_of(panics(ps))), T.eq(merged(ps, as_int), T.add(n.t, 4))))
+    # --- block size without uncle proposals
+    ctx = S.ctx(unwind=6)
+    ctx.uninterpreted_unknown_calls = True
+    B = ctx.int("block_bytes", "usize")
+    Pk = [ctx.int(f"uncle{k}_proposals_bytes", "usize") for k in range(2)]
+
+    def ln(ex, c, a, d):
+        nme = getattr(deref(ex, a[0]), "name", "")
+        m_ = re.search(r"proposals\(uncle(\d)\)", nme)
+        return Pk[int(m_.group(1))] if m_ else B
+    ctx.env = [
+        (E.rx(r"BlockReader(::<'_>)?(<'_>)?::uncles$"), lambda ex, c, a, d: OpaqueV("uncles", d)),
+        (E.rx(r"UncleBlockVecReader(::<'_>)?(<'_>)?::iter$"), E.list_source([OpaqueV(f"uncle{k}", "UncleBlockReader") for k in range(2)])),
+        (E.rx(r"UncleBlockReader(::<'_>)?(<'_>)?::proposals$"), lambda ex, c, a, d: OpaqueV("proposals(" + getattr(deref(ex, a[0]), "name", "?") + ")", d)),
+        (E.rx(r"::as_slice$"), lambda ex, c, a, d: SliceV("buf_" + re.sub(r"[^A-Za-z0-9]", "_", getattr(deref(ex, a[0]), "name", "?")), 0, ln(ex, c, a, d).t)),
+        (E.rx(r" as Iterator>::sum::<usize>$"), lambda ex, c, a, d: IntV(_sum_terms(ex, a[0]), "usize")),
+    ] + list(E.LIST_ADAPTORS)
+    f = one("serialized_size_without_uncle_proposals", lambda x: "BlockReader" in x.params[0][1])
+    ps = S.run(ctx, f, [ctx.ref_to(OpaqueV("block_reader", "BlockReader"))])
+    # a well-formed block: every uncle's proposals vector has at least its 4-byte header and lies inside the block
+    pre = [T.le(B.t, 1 << 40)] + [T.ge(p_.t, 4) for p_ in Pk] + [T.le(T.add(Pk[0].t, Pk[1].t), B.t)]
+    S.prove(ctx, ob, "block_size_without_uncle_proposals_no_panic_on_well_formed_blocks", pre, T.not_(cond_of(panics(ps))))
+    S.prove(ctx, ob, "block_size_without_uncle_proposals_subtracts_exactly_the_proposal_items_of_every_uncle", pre, T.eq(merged(ps, as_int), T.sub(B.t, T.add(T.sub(Pk[0].t, 4), T.sub(Pk[1].t, 4)))))
+
+
+def _sum_terms(ex, itv):
+    it = deref(ex, itv)
+    t = 0
+    for x in E._rest(ex, it):
+        x = deref(ex, x) if isinstance(x, RefV) else x
+        t = T.add(t, x.t)
+    return t
+
+
+def _one_fn(S, pred, what):
+    f = [x for x in S.prog.funcs if x.kind == "fn" and pred(x)]
+    if len(f) != 1:
+        raise Inconclusive(f"{what}: {len(f)} candidates")
+    return f[0]
+
+
+OBLIGATIONS = OBLIGATIONS + [m9_serialized_size_helpers]
